@@ -43,6 +43,6 @@ fn main() {
         "time is virtual; every frame round trip costs 5 us".into(),
     ];
 
-    check.run_prop("simnet-sdo", 16, tier.pick(5_000, 120_000), sc::c15_case, run);
+    check.run_prop("simnet-sdo", 16, tier.pick(5_000, 1_000_000), sc::c15_case, run);
     check.finish();
 }
